@@ -54,6 +54,7 @@ type Binder struct {
 // ---------- contract items
 
 type Clause struct {
+	UsesLog bool // mentions called()/lastret()/lastarg(): evidence about the function's own call log, not usable by callers
 	Label string
 	E     Expr
 	Src   string
@@ -245,7 +246,7 @@ func (cf *ContractFile) addItem(kw, text string, line int, cur **FuncContract, c
 		if err != nil {
 			return Clause{}, errf("%v in %q", err, t)
 		}
-		return Clause{Label: label, E: e, Src: t, File: cf.Path, Line: line}, nil
+		return Clause{Label: label, E: e, Src: t, File: cf.Path, Line: line, UsesLog: usesLog(e)}, nil
 	}
 	switch kw {
 	case "import":
@@ -966,4 +967,37 @@ func (p *exprParser) parsePrimary() (Expr, error) {
 		}
 	}
 	return nil, fmt.Errorf("unexpected token %q", t.text)
+}
+
+// usesLog reports whether an expression refers to the call log of the current activation.
+func usesLog(e Expr) bool {
+	switch e := e.(type) {
+	case *ECall:
+		if id, ok := e.Fun.(*EIdent); ok && (id.Name == "called" || id.Name == "lastret" || id.Name == "lastarg") {
+			return true
+		}
+		if usesLog(e.Fun) {
+			return true
+		}
+		for _, a := range e.Args {
+			if usesLog(a) {
+				return true
+			}
+		}
+	case *EUnary:
+		return usesLog(e.X)
+	case *EBinary:
+		return usesLog(e.X) || usesLog(e.Y)
+	case *ESel:
+		return usesLog(e.X)
+	case *EIndex:
+		return usesLog(e.X) || usesLog(e.I)
+	case *EQuant:
+		return usesLog(e.Body)
+	case *EIte:
+		return usesLog(e.C) || usesLog(e.A) || usesLog(e.B)
+	case *EOld:
+		return usesLog(e.X)
+	}
+	return false
 }
